@@ -135,7 +135,8 @@ func (r *Router) ServeHTTP(res http.ResponseWriter, req *http.Request) {
 func (r *Router) HandleContext(c *Context) {
 	c.Reset()
 	r.handleHTTPRequest(c)
-	r.ctxPool.Put(c)
+	// NOTICE: don't put c to the pool here. it is owned by the caller: a context taken by ServeHTTP
+	// is released by ServeHTTP, releasing it twice would hand it to two concurrent requests.
 }
 
 // handle HTTP Request
